@@ -227,6 +227,10 @@ func (t *FnTrans) selectInstr(x *ssa.Select) {
 				t.assume(implies(eq(tv.Tup[0].S, "(- 1)"), not(cl))) // default is taken only when no case is ready
 			}
 		}
+		// "ghost after select [#n]: ..." : selindex is the index of the case that fired (source order, -1: default)
+		t.lastSelIdx = tv.Tup[0].S
+		t.ghostAt("after select")
+		t.lastSelIdx = ""
 	}
 }
 
@@ -581,18 +585,32 @@ func (t *FnTrans) computeLoopWrites() {
 				}
 			}
 			for _, g := range t.ct.Ghost {
-				if !strings.HasPrefix(g.Arg, "before call ") && !strings.HasPrefix(g.Arg, "after call ") {
+				if g.Arg == "at entry" || g.Arg == "at return" {
 					continue
 				}
 				if strings.HasPrefix(g.Text, "assert ") || strings.HasPrefix(g.Text, "assume ") {
 					continue
 				}
-				site := g.Arg[strings.Index(g.Arg, "call ")+5:]
-				if k := strings.Index(site, " #"); k >= 0 {
-					site = site[:k]
+				if strings.HasPrefix(g.Arg, "before call ") || strings.HasPrefix(g.Arg, "after call ") {
+					site := g.Arg[strings.Index(g.Arg, "call ")+5:]
+					if k := strings.Index(site, " #"); k >= 0 {
+						site = site[:k]
+					}
+					if !unnamed && !names[site] {
+						continue // attached to a call that does not occur in this loop
+					}
 				}
-				if !unnamed && !names[site] {
-					continue // attached to a call that does not occur in this loop
+				// other positions (select, acquire, unlock, wait, notify, send) may occur in any loop: assignments to ghost
+				// locals there are part of every loop's write set (ghost fields / globals assigned at monitor positions are
+				// covered by the monitor's own write set, as before)
+				if !strings.HasPrefix(g.Arg, "before call ") && !strings.HasPrefix(g.Arg, "after call ") {
+					k := strings.Index(g.Text, "=")
+					if k <= 0 {
+						continue
+					}
+					if _, isLocal := t.ct.GhostLocal[strings.TrimSpace(g.Text[:k])]; !isLocal {
+						continue
+					}
 				}
 				i := strings.Index(g.Text, "=")
 				if i <= 0 {
